@@ -1370,6 +1370,66 @@ func (g *frGen) sequenceCases(n int) {
 	}
 }
 
+// ---------------------------------------------------------------------------------------
+// exhaustive small universes (thorough tier): every 1- and 2-byte payload at every level goes through
+// the implementation AND the model; every 3-byte payload goes through the implementation only
+// (monitors: no panic, consumed within the input, value rules, Length() = len(Append) <= consumed)
+// ---------------------------------------------------------------------------------------
+func (g *frGen) exhaustiveCases() {
+	full := frCfg{dg: true, rsa: true, af: true, exp: 3}
+	for _, lvl := range frLevels {
+		for a := 0; a < 256; a++ {
+			g.emitParse(full, lvl, protocol.Version1, []byte{byte(a)}, "exhaustive-1")
+			for b := 0; b < 256; b++ {
+				g.emitParse(full, lvl, protocol.Version1, []byte{byte(a), byte(b)}, "exhaustive-2")
+			}
+		}
+	}
+	v := protocol.Version1
+	buf := make([]byte, 3)
+	for _, lvl := range frLevels {
+		p := full.parser()
+		for x := 0; x < 1<<24; x++ {
+			buf[0], buf[1], buf[2] = byte(x>>16), byte(x>>8), byte(x)
+			in := append(make([]byte, 0, 3), buf...)
+			func() {
+				defer func() {
+					if e := recover(); e != nil {
+						g.monfail("frames/panic", fmt.Sprintf("parser panicked: %v", e), fmt.Sprintf("lvl=%d input=%x", lvl, in))
+					}
+				}()
+				f, lt, lb, _, err := wire.VerifParseNext(p, in, lvl, v)
+				if err != nil {
+					return
+				}
+				n := lt + lb
+				detail := fmt.Sprintf("lvl=%d input=%x", lvl, in)
+				if n <= 0 || n > 3 {
+					g.monfail("frames/consumed", fmt.Sprintf("consumed %d of 3 bytes", n), detail)
+				}
+				if why := frParsedInvalid(f); why != "" {
+					g.monfail("frames/reject", "parser accepted a frame with "+why, detail)
+				}
+				if sf, ok := f.(*wire.StreamFrame); ok {
+					if len(sf.Data) == 0 && !sf.Fin {
+						return
+					}
+					defer sf.PutBack()
+				}
+				b2, aerr := f.Append(nil, v)
+				if aerr != nil {
+					g.monfail("frames/reencode", "Append of a parsed frame fails: "+aerr.Error(), detail)
+					return
+				}
+				if protocol.ByteCount(len(b2)) != f.Length(v) || len(b2) > n {
+					g.monfail("frames/length", fmt.Sprintf("parsed %s: len(Append)=%d, Length()=%d, consumed %d", frName(f), len(b2), f.Length(v), n), detail)
+				}
+			}()
+		}
+		g.dist["exhaustive-3 (implementation only)"] += 1 << 24
+	}
+}
+
 func (g *frGen) mutate(enc []byte) []byte {
 	r := g.r
 	b := append([]byte{}, enc...)
@@ -1505,6 +1565,9 @@ func runFrames(w *bufio.Writer, seed uint64, n int, _ []string) {
 	}
 	g.relationalCases()
 	g.sequenceCases(n/4 + 10)
+	if thorough {
+		g.exhaustiveCases()
+	}
 	// (iii) split and truncation
 	g.splitCases(n/3 + 30)
 	g.truncCases(n/3 + 30)
